@@ -50,7 +50,7 @@ ASSUMPTIONS = [
 ]
 
 FNS = [kinds.node, kinds.node2, kinds.mutating_node, kinds.two, kinds.three, kinds.Base, kinds.Mid, kinds.target3,
-       kinds.tagged_fn, kinds.DCTagged, kinds.DC]
+       kinds.tagged_fn, kinds.DCTagged, kinds.DC, kinds.mutdef, kinds.mutdef]
 POS_FNS = [kinds.posnode, kinds.PosInit, sigs.g_ab_c_va]
 LEAVES = [0, 1, 2.5, 'a', 'long string ' * 12, None, True, (1, 2), ('x', (3, 4)), kinds.Color.RED,
           kinds.two, list(range(40)), b'b']
@@ -261,6 +261,14 @@ def run_main(spec, acc):
         for k, c in list(n.kw.items()):
           if isinstance(c, gen.B) and c.btype == 'Config' and rng.random() < 0.3:
             c.btype = 'ArgFactory'
+    # a tag on an UNSET parameter whose default is a mutable container (readers that look the
+    # value up by attribute see the callable's default; they must not store anything)
+    for n in gen.walk(root):
+      if isinstance(n, gen.B) and n.fn is kinds.mutdef and n.btype in ('Config', 'Partial'):
+        free = [k for k in ('a', 'b', 'd')[len(n.pos):] if k not in n.kw]
+        if free:
+          n.tags.setdefault(rng.choice(free), set()).add(vtags.TagA)
+          acc.obs('tag_on_unset_parameter_with_mutable_default')
     if rng.random() < 0.4:
       # argument-less sub-Buildables and empty containers (a diff then adds their FIRST entry)
       hosts = [n for n in gen.walk(root) if isinstance(n, gen.B) and n.btype in ('Config', 'Partial')
